@@ -10,6 +10,8 @@ def main(argv):
         print("usage: check <Cxx> [--tier quick|thorough]")
         return 3
     pid = argv[0]
+    if "--replay" in argv:
+        return replay(pid, argv[argv.index("--replay") + 1])
     tier = os.environ.get("VERIF_TIER", "quick")
     if "--tier" in argv:
         tier = argv[argv.index("--tier") + 1]
@@ -34,6 +36,49 @@ def main(argv):
         if rc == 3:
             print("CHECKER-ERROR property=%s checker crashed (never a violation)" % pid)
         return rc
+
+
+NATIVE_OF = {"C07": ("monitor/native_events.py", dict(props=["C07"])), "C08": ("monitor/native_events.py", dict(props=["C08"])), "C09": ("monitor/native_events.py", dict(props=["C09"]))}
+
+
+def replay(pid, path):
+    """./check <Cxx> --replay <file>: re-decide the recorded failing obligation from its SMT-LIB text (the verification condition as it was
+    generated from the source at that time) and re-run the bounded native family of the property against the current tree to see whether
+    the recorded failing clause still fails.  Exit 1 if the violation reproduces, 0 if it does not."""
+    import json
+    from . import common
+    if not os.path.isabs(path):
+        path = os.path.join(common.OUT, path)
+    d = json.load(open(path))
+    print("obligation : %s" % d.get("obligation"))
+    print("solver said: %s (%s)  model: %s" % (d.get("solver", {}).get("answer"), d.get("solver", {}).get("backend"), str(d.get("solver", {}).get("model"))[:400]))
+    reproduced = False
+    if d.get("smt2"):
+        import z3
+        s = z3.Solver()
+        s.set("timeout", 60000)
+        try:
+            s.from_string(d["smt2"])
+            r = s.check()
+            print("re-check of the recorded verification condition: %s (sat = the negated obligation has a model: refuted)" % r)
+            reproduced = reproduced or str(r) == "sat"
+        except Exception as e:
+            print("recorded SMT-LIB text could not be re-checked: %r" % (e,))
+    nat = d.get("native") or {}
+    clauses = []
+    if isinstance(nat.get("witness"), dict) and nat["witness"].get("clause"):
+        clauses = [nat["witness"]["clause"]]
+    clauses += list((nat.get("failures") or {}).keys())
+    script, extra = NATIVE_OF.get(pid, ("monitor/native_%s.py" % pid.lower(), {}))
+    if clauses and os.path.exists(os.path.join(common.VERIF, script)):
+        res = common.run_native(script, dict(tier="quick", **extra), timeout=2400)
+        still = [c for c in clauses if c in res.get("failures", {})]
+        print("native family against the current tree: clauses recorded %r, failing now %r" % (clauses, still))
+        for c in still:
+            print("  witness: %s" % json.dumps(res["failures"][c][0])[:400])
+        reproduced = reproduced or bool(still)
+    print("REPRODUCED" if reproduced else "NOT-REPRODUCED")
+    return 1 if reproduced else 0
 
 
 if __name__ == "__main__":
